@@ -75,8 +75,8 @@ func (s *Stats) CaseH(h string, scenario any, nontrivial bool, labels ...string)
 	}
 }
 
-func (s *Stats) Label(l string)            { s.mu.Lock(); s.Labels[l]++; s.mu.Unlock() }
-func (s *Stats) Add(k string, n int64)     { s.mu.Lock(); s.Extra[k] += n; s.mu.Unlock() }
+func (s *Stats) Label(l string)        { s.mu.Lock(); s.Labels[l]++; s.mu.Unlock() }
+func (s *Stats) Add(k string, n int64) { s.mu.Lock(); s.Extra[k] += n; s.mu.Unlock() }
 func (s *Stats) Sample(v any) {
 	s.mu.Lock()
 	if len(s.Samples) < s.maxSamples+2 {
